@@ -288,6 +288,8 @@ func (t *loopTr) binop(at ast.Node, op token.Token, a string, ak lkind, b string
 	}
 	if ak == kString {
 		switch op {
+		case token.ADD: // concatenation (strings are immutable values)
+			return "(" + a + " ++ " + b + ")", kString
 		case token.EQL:
 			return "(" + a + " == " + b + ")", kBool
 		case token.NEQ:
@@ -503,7 +505,10 @@ func (t *loopTr) appendCall(x *ast.CallExpr) (string, lkind) {
 	if id, ok := unparen(x.Args[0]).(*ast.Ident); ok {
 		t.checkAppendTo(x, id)
 	}
-	a, ak := t.expr(x.Args[0])
+	a, ak, isArr := t.appendArrayBase(x, x.Args[0]) // `a[:]` of an array that is never written (loops_arr.go)
+	if !isArr {
+		a, ak = t.expr(x.Args[0])
+	}
 	if !ak.isSlice() {
 		t.fail(x, "append to %s", ak.lean())
 	}
@@ -511,7 +516,7 @@ func (t *loopTr) appendCall(x *ast.CallExpr) (string, lkind) {
 		if len(x.Args) != 2 {
 			t.fail(x, "append arity")
 		}
-		b, bk := t.expr(x.Args[1])
+		b, bk := t.argValue(x.Args[1]) // only read: may be a window x[lo:hi]
 		if bk != ak && !(ak == kBytes && bk == kString) {
 			t.fail(x, "append of %s to %s", bk.lean(), ak.lean())
 		}
@@ -608,6 +613,9 @@ func (t *loopTr) libCall(x *ast.CallExpr, sel *ast.SelectorExpr) (string, lkind)
 	if s, k, ok := t.strsLibCall(x, f); ok {
 		return s, k
 	}
+	if s, k, ok := t.arrLibCall(x, f); ok {
+		return s, k
+	}
 	switch f.Pkg().Path() + "." + f.Name() {
 	case "math/bits.TrailingZeros":
 		if len(x.Args) != 1 {
@@ -633,7 +641,7 @@ func (t *loopTr) libCall(x *ast.CallExpr, sel *ast.SelectorExpr) (string, lkind)
 		}
 		// fmt.Errorf("…%w…", …, ErrX, …): an error that wraps the package variable ErrX; the text is not modelled,
 		// the other arguments are only evaluated
-		if len(x.Args) < 2 || x.Ellipsis.IsValid() {
+		if len(x.Args) < 1 || x.Ellipsis.IsValid() {
 			t.fail(x, "unsupported call %s", t.p.src(x))
 		}
 		tv := t.typeOf(x.Args[0])
@@ -679,8 +687,15 @@ func (t *loopTr) libCall(x *ast.CallExpr, sel *ast.SelectorExpr) (string, lkind)
 			}
 			arg++
 		}
-		if res == "" || arg != len(x.Args) {
-			t.fail(x, "fmt.Errorf: exactly one %%w and as many verbs as arguments are required")
+		if arg != len(x.Args) {
+			t.fail(x, "fmt.Errorf: as many verbs as arguments are required")
+		}
+		if res == "" {
+			// no %w: a new error that wraps nothing, named after its format (loops_arr.go)
+			if t.inErrLit > 0 {
+				t.fail(x, "fmt.Errorf without %%w as the wrapped error of &T{…} is not supported")
+			}
+			res = t.errorfNew(constant.StringVal(tv.Value))
 		}
 		return res, t.errKind()
 	}
